@@ -699,6 +699,41 @@ func runC16(c *h.Ctx) {
 			}
 		}
 	}
+	// float64 items that are no numbers (a document built in Go may hold NaN
+	// and the infinities): no conversion method turns them into a value
+	// (.abs()/.floor()/.ceiling() hand them through; they are no JSON values,
+	// so nothing is asserted there)
+	for i, v := range []float64{math.NaN(), math.Inf(1), math.Inf(-1)} {
+		for j, m := range []string{"double()", "number()", "integer()", "bigint()", "decimal()", "decimal(5,2)"} {
+			idx++
+			if !c.Mine(idx) {
+				continue
+			}
+			_, _ = i, j
+			// (the value sits inside containers: the hooks compare the root and
+			// the current item by identity, and NaN is not equal to itself)
+			for _, form := range []string{"$.a.%s", "$.arr[*].%s", "$ ? (@.a.%s < 0 || @.a.%s >= 0)", "$.a.%s.type()", "$.arr.%s"} {
+				ptxt := strings.ReplaceAll(form, "%s", m)
+				p := cachedPath(ptxt)
+				if p == nil {
+					continue
+				}
+				var doc any = map[string]any{"a": v, "arr": []any{v}}
+				o := h.Call("query", p, doc, h.Opts{})
+				c.Eval(1)
+				cs := h.Case{Kind: "exec", Path: ptxt, Extra: map[string]string{"document": fmt.Sprint("float64 ", v)}}
+				bad := o.Class == h.OK && len(o.Items) > 0
+				if o.Class == h.Panic || o.Class == h.Invalid {
+					continue
+				}
+				if bad {
+					c.Violate("method.reject", h.F("method", m, "input", "non-finite-float64"), fmt.Sprintf("Query(%s) on the float64 %v = %s; NaN and the infinities are not numbers any conversion accepts", ptxt, v, o.Summary()), cs)
+				} else {
+					c.Held("method.reject")
+				}
+			}
+		}
+	}
 	// each .decimal(p,s) of a path has its own arguments: several of them in
 	// one execution (chained, one inside a filter and one after it, one on each
 	// side of a comparison) behave as each does alone
